@@ -643,11 +643,12 @@ class ODLEncoder(PVLEncoder):
             return False
 
     def needs_quotes(self, s: str) -> bool:
-        """Return true if *s* is an ODL Identifier, false otherwise.
+        """Return false if *s* is an ODL Identifier that is read back
+        as the same string when written without quotes, true otherwise.
 
         Overrides parent function.
         """
-        return not self.decoder.is_identifier(s)
+        return not self.is_bare_identifier(s)
 
     def is_assignment_statement(self, s) -> bool:
         """Returns true if *s* is an ODL Assignment Statement, false otherwise.
